@@ -98,21 +98,27 @@ def judge(name, b, ignore_covers=False):
     if unwind:
         return 'inconclusive', 'unwinding assertion failed: the bound is too small for %s' % unwind[0][3]
     cov = b['covers']
-    if cov is not None and cov[0] != cov[1] and not ignore_covers:
-        return 'inconclusive', 'cover witness not met (%d of %d): the harness is partly vacuous' % cov
+    vacuous = cov is not None and cov[0] != cov[1] and not ignore_covers
     if name.endswith('_panics'):
         if any('RETURNED-WITHOUT-PANIC' in f[0] for f in b['failed']):
             return 'violation', 'the call returns although the same index on the byte slice panics'
-        if not b['failed']:
-            return 'inconclusive', 'no panic reachable and the marker unreachable: vacuous harness'
         bad = [f for f in b['failed'] if not any(a in f[1] for a in ALLOWED_PANIC_FILES)]
         if bad:
             return 'violation', 'a failure other than the expected panic: %s at %s:%d' % (bad[0][0][:80], bad[0][1], bad[0][2])
+        if vacuous:
+            return 'inconclusive', 'cover witness not met (%d of %d): the harness is partly vacuous' % cov
+        if not b['failed']:
+            return 'inconclusive', 'no panic reachable and the marker unreachable: vacuous harness'
         return 'ok', 'every path panics (%d panic sites)' % len(b['failed'])
-    if b['status'] == 'SUCCESSFUL':
-        return 'ok', 'all checks passed'
-    f = b['failed'][0] if b['failed'] else ('?', '', 0, '')
-    return 'violation', '%s at %s:%d' % (f[0][:120], f[1], f[2])
+    if b['failed']:
+        f = b['failed'][0]
+        return 'violation', '%s at %s:%d' % (f[0][:120], f[1], f[2])
+    if b['status'] != 'SUCCESSFUL':
+        return 'inconclusive', 'verification did not succeed and no failed check was reported'
+    if vacuous:
+        # a failing assertion cuts the paths behind it, so covers are judged only on a passing harness
+        return 'inconclusive', 'cover witness not met (%d of %d): the harness is partly vacuous' % cov
+    return 'ok', 'all checks passed'
 
 
 def playback(harness, timeout=900):
